@@ -1748,6 +1748,10 @@ def c16_cases(tier, seed):
             meta["stdin_ro"] = 1           # standard input is the terminal opened read-only
         elif r9 < 0.40:
             meta["preferterm"] = 1         # standard input is a pipe, the editor opens the controlling terminal itself (PreferTerm)
+        elif r9 < 0.48:
+            meta["stdout_relay"] = 1       # `app | cat`: the editor's output is a pipe whose reader copies it to the terminal
+        elif r9 < 0.56 and not signals and "C-z" not in keys:
+            meta["no_ctty"] = 1            # the terminal is not the process's controlling terminal (a pty slave handed over by a supervisor)
         c = Case(keys, mode=mode, timeout=0, prompt="> ", reads=nreads * 3, chunks=chunks, helper=True, validator="script",
                  cands=["abc", "abd"], meta=meta)
         cases.append(c)
@@ -1769,9 +1773,10 @@ def _c16_job(job):
     import ptydrive
     exe, spec, chunks, raw_initial, between = job[:5]
     events = job[5] if len(job) > 5 else None
+    ctty = job[6] if len(job) > 6 else True
     for attempt in range(2):
         try:
-            r = ptydrive.run_case(exe, spec, chunks, raw_initial=raw_initial, between_reads=between, events=events)
+            r = ptydrive.run_case(exe, spec, chunks, raw_initial=raw_initial, between_reads=between, events=events, ctty=ctty)
             r.pop("termios_probe", None)
             return r
         except OSError as e:
@@ -1790,7 +1795,7 @@ def c16_corr(res, exe, driver, tier, seed, tmp):
     jobs = []
     for c in cases:
         spec = c.spec() + "pause 1\n"
-        jobs.append((exe, spec, c.chunks, c.meta["raw_initial"], c.meta["between"], c.meta.get("stall_events")))
+        jobs.append((exe, spec, c.chunks, c.meta["raw_initial"], c.meta["between"], c.meta.get("stall_events"), not c.meta.get("no_ctty")))
     ctx = multiprocessing.get_context("fork")
     with ctx.Pool(NPROC) as pool:
         raws = pool.map(_c16_job, jobs, chunksize=max(1, len(jobs) // (NPROC * 8)))
